@@ -36,7 +36,7 @@ TOL = 1e-11
 def build_system(spec):
     import quantarhei as qr
     n = spec["n"]
-    ta = qr.TimeAxis(0.0, spec["nt"], spec["dt"])
+    ta = qr.TimeAxis(spec.get("t0", 0.0), spec["nt"], spec["dt"])
     mols = []
     with qr.energy_units("1/cm"):
         for i in range(n):
@@ -206,7 +206,12 @@ def evaluate(expr, systems, shared=None):
             hy = KTHierarchy(ham, agg.get_SystemBathInteraction(), expr["depth"])
             kp = KTHierarchyPropagator(qr.TimeAxis(0.0, expr["nt"], expr["dt"]), hy)
         rho = B.state(expr["sys"], expr["state"]) if shared is not None else qr.ReducedDensityMatrix(data=state_array(ham.dim, expr["state"]))
-        ev = kp.propagate(rho)
+        kw = {}
+        if expr.get("free"):
+            kw["free_hierarchy"] = True       # the documented variant used for memory kernels
+        if expr.get("report"):
+            kw["report_hierarchy"] = True
+        ev = kp.propagate(rho, **kw)
         return {"rhot": numpy.array(ev.data)}
     if kind == "refused_heom":
         from quantarhei.qm.liouvillespace.heom import KTHierarchy, KTHierarchyPropagator
@@ -218,7 +223,7 @@ def evaluate(expr, systems, shared=None):
         return {"rhot": numpy.array(kp.propagate(rho).data)}
     if kind == "eso":
         RT, ham = B.tensor(expr["sys"], expr["th"], expr.get("unit"), expr.get("recalc", True)) if shared is None else shared.get_tensor(expr["sys"], expr["th"])
-        U = qr.qm.EvolutionSuperOperator(time=qr.TimeAxis(0.0, expr["nt"], expr["dt"]), ham=ham, relt=RT, mode="all")
+        U = qr.qm.EvolutionSuperOperator(time=qr.TimeAxis(B.specs[expr["sys"]].get("t0", 0.0), expr["nt"], expr["dt"]), ham=ham, relt=RT, mode="all")
         U.set_dense_dt(expr["dense"])
         U.calculate()
         return {"U": numpy.array(U.data)}
@@ -240,7 +245,7 @@ def pure_dephasing(dim, kind):
 def make_rdm_prop(B, pexpr):
     import quantarhei as qr
     agg = B.system(pexpr["sys"])
-    axis = qr.TimeAxis(0.0, pexpr["nt"], pexpr["dt"])
+    axis = qr.TimeAxis(B.specs[pexpr["sys"]].get("t0", 0.0), pexpr["nt"], pexpr["dt"])
     pd = pure_dephasing(agg.get_Hamiltonian().dim, pexpr.get("pdeph"))
     if pexpr["th"] is None:
         if pd is None:
@@ -307,7 +312,8 @@ class World:
                        "same_propagator_in_two_different_contexts", "tensor_requested_inside_units_context", "pure_dephasing_propagator",
                        "refused_call_in_history", "hierarchy_shared_by_two_propagators",
                        "tensor_requested_without_recalculation_after_another", "tensor_with_inhomogeneous_term",
-                       "inhomogeneous_tensor_shared_by_two_propagators"]
+                       "inhomogeneous_tensor_shared_by_two_propagators", "ordinary_heom_run_after_free_hierarchy_run",
+                       "bath_time_axis_not_starting_at_zero"]
     required_faults = []
     components = {
         "real": ["Aggregate/Molecule builders", "OpenSystem.get_RelaxationTensor (stR TI/TD, operator form, secular; stF TI/TD; cRF with cut-off)",
@@ -333,7 +339,7 @@ class World:
         systems = []
         for _ in range(nsys):
             n = rng.choice([2, 2, 3])
-            systems.append({"n": n, "nt": 200, "dt": 2.0, "T": 300,
+            systems.append({"n": n, "nt": 200, "dt": 2.0, "T": 300, "t0": rng.choice([0.0, 0.0, 0.0, 10.0, 4.0]),
                             "en": [round(rng.uniform(11800, 12300), 1) for _ in range(n)],
                             "reorg": [round(rng.uniform(10, 60), 1) for _ in range(n)],
                             "cortime": [round(rng.uniform(40, 150), 1) for _ in range(n)],
@@ -395,6 +401,8 @@ class World:
             elif k == "propagate_heom":
                 op["state"] = {"kind": rng.choice(["site", "coh"]), "k": rng.randrange(4)}
                 op["new_state"] = rng.random() < 0.4
+                op["free"] = rng.random() < 0.3
+                op["report"] = rng.random() < 0.2
             elif k == "eso":
                 op["nt"] = rng.choice([5, 10])
                 op["dense"] = rng.choice([1, 2])
@@ -538,6 +546,10 @@ class Runner:
                 hi = op["a"] % len(heoms)
                 Hh = heoms[hi]
                 expr = {"kind": "propagate_heom", "sys": Hh["sys"], "depth": Hh["depth"], "nt": Hh["nt"], "dt": Hh["dt"], "state": op["state"]}
+                if op.get("free"):
+                    expr["free"] = True
+                if op.get("report"):
+                    expr["report"] = True
                 plan.append(("propagate_heom", expr, (hi, bool(op["new_state"]))))
             elif k == "eso":
                 mine = [n for n, t in enumerate(tensors) if t[0] == j and not THEORIES[t[1]][1].get("time_dependent")]
@@ -559,7 +571,10 @@ class Runner:
     def fp_system(self, agg):
         H = agg.get_Hamiltonian()
         sbi = agg.get_SystemBathInteraction()
-        parts = [numpy.array(H.data), numpy.array(sbi.KK)]
+        parts = [numpy.array(H.data), numpy.array(sbi.KK), numpy.array(sbi.TimeAxis.data),
+                 numpy.array([sbi.TimeAxis.start, sbi.TimeAxis.step, sbi.TimeAxis.length], dtype=float)]
+        if sbi.TimeAxis.start != 0.0:
+            self.ctx.probe("bath_time_axis_not_starting_at_zero")
         flags = (bool(getattr(H, "_has_remainder_coupling", False)), bool(H.is_basis_protected), bool(H.has_rwa),
                  None if H.rwa_indices is None else [int(x) for x in H.rwa_indices], H.get_current_basis())
         for i in range(sbi.N):
@@ -747,6 +762,10 @@ class Runner:
                     if used["heom%d" % hi] >= 2:
                         self.ctx.probe("heom_reused")
                         reuse += 1
+                    fr = used.setdefault("heomfree%d" % hi, [])
+                    fr.append(bool(expr.get("free")))
+                    if len(fr) >= 2 and fr[-1] is False and any(fr[:-1]):
+                        self.ctx.probe("ordinary_heom_run_after_free_hierarchy_run")
                 elif k == "propagate_sv":
                     if self.shared.last_prop_reused:
                         self.ctx.probe("sv_reused")
@@ -819,7 +838,7 @@ class Shared:
     def add_rdm_prop(self, P):
         qr = self.r.qr
         agg = self.system(P["sys"])
-        axis = qr.TimeAxis(0.0, P["nt"], P["dt"])
+        axis = qr.TimeAxis(self.specs[P["sys"]].get("t0", 0.0), P["nt"], P["dt"])
         pd = pure_dephasing(agg.get_Hamiltonian().dim, P.get("pdeph"))
         kw = {} if pd is None else {"PDeph": pd}
         if P["tslot"] is None:
